@@ -198,24 +198,22 @@ T == [pre |-> Pre, reqs |-> RS, post |-> ProjectB(Result.ir), exc |-> Result.err
 (* invariants: the Level-A clauses on the model's result                   *)
 (***************************************************************************)
 Excused(X, K, clause) == KfTags(X, K, clause) # {}
-ModelRefines ==
-  LET X == Ctx(T)
-      K == CfgK(X)
-      done == T.exc = ""
-  IN  /\ (T.exc # "" => Excused(X, K, "C01_Completes"))
-      /\ T.exc # "ModelOffsetError"
-      /\ done =>
-           /\ C01_Bytes(X)
-           /\ (C02_Positions(X) \/ Excused(X, K, "C02_Positions"))
-           /\ (C02_Proxy(X) \/ Excused(X, K, "C02_Proxy"))
-           /\ C02_PatchLabels(X)
-           /\ C06_Attribution(X)
-           /\ C06_Entries(X)
-           /\ T.post.dead = 0
-           /\ K.preOk
-           /\ (K.dom => /\ (C03_Fallthrough(K) \/ Excused(X, K, "C03_Fallthrough"))
-                        /\ C03_BranchCall(K)
-                        /\ (C03_Returns(K) \/ Excused(X, K, "C03_Returns"))
-                        /\ C03_NoBuriedTerminator(X))
+XX == Ctx(T)
+KK == CfgK(XX)
+Done == T.exc = ""
+Inv_Completes == (T.exc # "" => Excused(XX, KK, "C01_Completes")) /\ T.exc # "ModelOffsetError"
+Inv_Bytes == Done => C01_Bytes(XX)
+Inv_Syms == Done => /\ (C02_Positions(XX) \/ Excused(XX, KK, "C02_Positions"))
+                    /\ (C02_Proxy(XX) \/ Excused(XX, KK, "C02_Proxy"))
+                    /\ C02_PatchLabels(XX)
+Inv_Fn == Done => C06_Attribution(XX) /\ C06_Entries(XX)
+Inv_NoDeadEdges == Done => T.post.dead = 0
+Inv_PreCfg == F0.wellformed => KK.preOk
+Inv_Cfg == (Done /\ KK.dom) =>
+              /\ (C03_Fallthrough(KK) \/ Excused(XX, KK, "C03_Fallthrough"))
+              /\ C03_BranchCall(KK)
+              /\ (C03_Returns(KK) \/ Excused(XX, KK, "C03_Returns"))
+              /\ C03_NoBuriedTerminator(XX)
+ModelRefines == Inv_Completes /\ Inv_Bytes /\ Inv_Syms /\ Inv_Fn /\ Inv_NoDeadEdges /\ Inv_PreCfg /\ Inv_Cfg
 InvB == ModelRefines /\ (Emit => PrintT("CASE " \o ToJson(CaseJson)))
 =============================================================================
